@@ -115,7 +115,7 @@ func (mw *msgWriter) writeMsg(msg *Msg) {
 		}
 	}
 	if hasFrom && (len(from) > 0 && from[0] != nil) {
-		msg.headerCount += mw.writeHeader(Header(HeaderFrom), from[0].String())
+		msg.headerCount += mw.writeHeader(Header(HeaderFrom), addressString(from[0]))
 	}
 
 	// Set the rest of the address headers
@@ -123,7 +123,7 @@ func (mw *msgWriter) writeMsg(msg *Msg) {
 		if addresses, ok := msg.addrHeader[to]; ok {
 			var val []string
 			for _, addr := range addresses {
-				val = append(val, addr.String())
+				val = append(val, addressString(addr))
 			}
 			msg.headerCount += mw.writeHeader(Header(to), val...)
 		}
